@@ -167,7 +167,10 @@ def _r2(ck: Checker, prog: Program):
                 continue
             n += 1
             b = bind_call(c, f.params)
-            a0, a1 = unparse(b.get("ns")), unparse(b.get("ew"))
+            from ..resolve import Resolver
+            RR = Resolver(prog, g, inline=False)
+            a0 = str(RR.value(b["ns"], c)) if "ns" in b else "<missing>"
+            a1 = str(RR.value(b["ew"], c)) if "ew" in b else "<missing>"
             good = a0.endswith(".ns.amplitude") and a1.endswith(".ew.amplitude") and a0.split(".")[0] == a1.split(".")[0]
             if good:
                 ck.ok(P + "R2", g.qualname, norm_key(c, 110))
@@ -251,54 +254,13 @@ def _r4(ck: Checker, prog: Program, rule: str = "C04.R4"):
 
 
 def _r5(ck: Checker, prog: Program):
-    f = prog.func("processing.traditional_rotdpp_hvsr_processing")
-    fq = f.qualname
-    alloc = [st for st in own_nodes(f.node) if isinstance(st, ast.Assign) and unparse(st.targets[0]) == "raw_spectra_per_record"]
-    T = Translator()
-    good = False
-    if len(alloc) == 1 and isinstance(alloc[0].value, ast.Call) and alloc[0].value.args and isinstance(alloc[0].value.args[0], ast.Tuple):
-        rows = T.tr(alloc[0].value.args[0].elts[0])
-        good = equal(rows, sp.Function("len")(T.sym("settings.azimuths_in_degrees")) + 1)
-    if good:
-        ck.ok(P + "R5", fq, norm_key(alloc[0], 100), detail="len(azimuths) + 1 rows")
-    else:
-        ck.violation(P + "R5", fq, "row allocation", "the per-record spectra array does not have len(azimuths)+1 rows", loc=f.loc())
-    inner = [st for st in own_nodes(f.node) if isinstance(st, ast.For) and "azimuths_in_degrees" in unparse(st.iter)]
-    if len(inner) != 1:
-        raise AnalysisError(f"{fq}: azimuth loop not found")
-    lp = inner[0]
-    ok_it = unparse(lp.iter) == "enumerate(settings.azimuths_in_degrees)" and isinstance(lp.target, ast.Tuple) \
-        and not any(isinstance(x, (ast.Break, ast.Continue, ast.If)) for x in ast.walk(lp))
-    idx, az = (unparse(lp.target.elts[0]), unparse(lp.target.elts[1])) if ok_it else (None, None)
-    c = [x for x in calls_in(lp, "single_azimuth") if isinstance(x.func, ast.Name)]
-    st_row = [st for st in lp.body if isinstance(st, ast.Assign) and isinstance(st.targets[0], ast.Subscript)
-              and unparse(st.targets[0].value) == "raw_spectra_per_record"]
-    good = ok_it and len(c) == 1 and len(c[0].args) == 3 and unparse(c[0].args[2]) == az and len(st_row) == 1 and unparse(st_row[0].targets[0].slice) == idx
-    if good:
-        ck.ok(P + "R5", fq, norm_key(lp), detail=f"row {idx} = spectrum of the projection on azimuth {az}")
-    else:
-        ck.violation(P + "R5", fq, "azimuth rows", "row i of the per-record array is not the spectrum of the projection on azimuth i", loc=f.loc(lp))
-    vrow = [st for st in own_nodes(f.node) if isinstance(st, ast.Assign) and unparse(st.targets[0]) == "raw_spectra_per_record[-1]"]
-    if len(vrow) == 1 and unparse(vrow[0].value) == "fft_v":
-        ck.ok(P + "R5", fq, "last row = vertical spectrum", nontrivial=False)
-    else:
-        ck.violation(P + "R5", fq, "vertical row", "the vertical spectrum is not stored in the last row", loc=f.loc())
-    pc = calls_in(f.node, "percentile")
-    good = False
-    if len(pc) == 1:
-        a = pc[0].args
-        ax = kwarg(pc[0], "axis")
-        good = len(a) >= 2 and unparse(a[0]) == "smooth_spectra[:-1]" and unparse(a[1]) == "settings.ppth_percentile_for_rotdpp_computation" \
-            and ax is not None and unparse(ax) == "0" and not [k for k in pc[0].keywords if k.arg in ("method", "interpolation")]
-    vs = [st for st in own_nodes(f.node) if isinstance(st, ast.Assign) and unparse(st.targets[0]) == "smooth_v"]
-    good = good and len(vs) == 1 and unparse(vs[0].value) == "smooth_spectra[-1]"
-    ratio = [st for st in own_nodes(f.node) if isinstance(st, ast.Assign) and unparse(st.targets[0]) == "hvsr_spectra[hvsr_idx]"]
-    good = good and len(ratio) == 1 and unparse(ratio[0].value) == "smooth_h / smooth_v"
-    if good:
-        ck.ok(P + "R5", fq, norm_key(pc[0], 110), detail="percentile over axis 0 of the azimuth rows, divided by the vertical row")
-    else:
-        ck.violation(P + "R5", fq, "percentile", "RotDpp is not the configured percentile over axis 0 of the horizontal (azimuth) rows divided by the vertical row",
-                     loc=f.loc(pc[0]) if pc else f.loc())
+    from .procmodel import rotdpp_roles
+    problems, facts, b = rotdpp_roles(prog)
+    fq = b.func.qualname
+    for fct in facts:
+        ck.ok(P + "R5", fq, fct)
+    for pr in problems:
+        ck.violation(P + "R5", fq, pr[:100], "RotDpp: " + pr, loc=b.func.loc(b.record_loop))
 
 
 def _r6(ck: Checker, prog: Program):
